@@ -1278,3 +1278,28 @@ package template
 //@   option allocates
 //@   ensures shape: !isnil(r) && fresh(r) && len(r.Args) == 1 && !isnil(at(r.Args, 0))
 //@   ensures ident: dyntypeis(at(r.Args, 0), "parse_IdentifierNode") && seqeq(asref(at(r.Args, 0), "parse_IdentifierNode").Ident, identifier)
+
+//@ func isJsTemplateBalanced(s *bytes.Buffer) (err error)
+//@   serves C01 C08
+//@   ensures shrinks: len(s) <= old(len(s))
+//@   loop 1
+//@     invariant len(s) <= old(len(s))
+//@     decreases len(s)
+
+//@ func consumeJsTemplate(s *bytes.Buffer) (err error)
+//@   serves C01 C08
+//@   option recgroup jstemplate
+//@   decreases 2 * len(s) + 1
+//@   ensures consumed: isnil(err) ==> len(s) < old(len(s))
+//@   ensures shrinks: len(s) <= old(len(s))
+//@   loop 1
+//@     invariant len(s) == old(len(s)) && seqeq(seq(s), old(seq(s)))
+
+//@ func consumeJsTemplateExpr(s *bytes.Buffer) (err error)
+//@   serves C01 C08
+//@   option recgroup jstemplate
+//@   decreases 2 * len(s)
+//@   ensures consumed: isnil(err) ==> len(s) < old(len(s))
+//@   ensures shrinks: len(s) <= old(len(s))
+//@   loop 1
+//@     invariant len(s) == old(len(s)) && seqeq(seq(s), old(seq(s)))
